@@ -173,6 +173,8 @@ pub struct Sim {
     cfg: SchedCfg,
     poisoned: bool,
     steps: u64,
+    /// step at which something last moved (channel message, bytes on the transport, thread exit)
+    last_progress_step: u64,
     current: usize,
     pending: Option<Event>,
     done: Option<Outcome>,
@@ -240,6 +242,10 @@ impl Sim {
     }
 
     fn bump(&mut self, k: Key) {
+        // a message moved through a channel, a thread ended, a harness condition changed: progress
+        if !matches!(k, Key::Poll) {
+            self.last_progress_step = self.steps;
+        }
         *self.epochs.entry(k).or_insert(0) += 1;
     }
 
@@ -298,7 +304,18 @@ impl Sim {
             self.stats.steps += 1;
             self.now += 1_000;
             if self.steps > self.cfg.step_cap && self.done.is_none() && !self.draining {
-                self.done = Some(Outcome::StepCap);
+                // a run that is cut off while it still makes progress is inconclusive; one that has spun for
+                // the whole second half of its budget without any (bytes moved, operation completed,
+                // harness event) is a livelock and is reported like a hang
+                if self.steps.saturating_sub(self.last_progress_step) > self.cfg.step_cap / 2 {
+                    let mut v = self.hung_threads();
+                    for t in v.iter_mut() {
+                        t.note = format!("LIVELOCK: no progress for {} scheduler steps; {}", self.steps - self.last_progress_step, t.note);
+                    }
+                    self.done = Some(Outcome::Hang(v));
+                } else {
+                    self.done = Some(Outcome::StepCap);
+                }
                 return None;
             }
             // internal wake events that are due are applied eagerly: they are
@@ -525,6 +542,7 @@ pub fn start(choices: ChoiceStream, cfg: SchedCfg, hash_seed: u64) {
         cfg,
         poisoned: false,
         steps: 0,
+        last_progress_step: 0,
         current: 0,
         pending: None,
         done: None,
@@ -749,6 +767,15 @@ pub fn effect(key: Key) {
     let mut g = lock();
     if let Some(sim) = g.as_mut() {
         sim.bump(key);
+    }
+}
+
+/// The harness reports that something moved (bytes accepted or delivered by the transport, a broker
+/// event): used to tell a livelock from a long run when the step cap is hit.
+pub fn note_progress() {
+    let mut g = lock();
+    if let Some(sim) = g.as_mut() {
+        sim.last_progress_step = sim.steps;
     }
 }
 
